@@ -2,7 +2,8 @@
 Correspondence: cmd 7 — every history runs in a forked child; after EVERY step the full observable
 state (what flatten does with probe instances in every namespace x none_is_leaf, what
 register_pytree_node.get says with and without a class) is compared with the model's.
-Exhaustive: all histories of length 2 (thorough: 3) over the op universe; longer ones sampled.
+Exhaustive: all histories of length 2 over the op universe (thorough: also length 3 over a reduced
+universe); longer ones sampled.
 Oracle (implementation only): engine view == Python view; a failing call changes nothing."""
 import collections
 import itertools
@@ -141,9 +142,13 @@ def to_tuple(x):
     return x
 
 
-def op_universe(full=False):
+def op_universe(full=False, small=False):
     classes = [(0, 0), (1, 0), (2, 0), (3, 0), (4, 0)] + ([(0, 1)] if full else [])
     nss = [(0, 0), (1, 1), (1, 2), (2, 0), (3, 0)]
+    if small:
+        # two registrable classes, one built-in, one non-class; global / two named / invalid namespaces
+        classes = [(0, 0), (1, 0), (3, 0)]
+        nss = [(0, 0), (1, 1), (1, 2), (2, 0)]
     ops = []
     for c in classes:
         for n in nss:
@@ -184,10 +189,16 @@ def run(res, tier, seed):
     rng = random.Random(seed * 1000003 + 12)
     uni = op_universe()
     hist = []
-    depth = 2 if tier == 'quick' else 3
+    depth = 2
     for we in (0, 1):
         for ops in itertools.product(uni, repeat=depth):
             hist.append((we, ops, f'exhaustive_len{depth}'))
+    small = op_universe(small=True)
+    if tier != 'quick':
+        # length 3 over the reduced universe (the full one is 53^3 x 2 = 3e5 forked processes: > 1 h)
+        for we in (0, 1):
+            for ops in itertools.product(small, repeat=3):
+                hist.append((we, ops, 'exhaustive_len3_small_universe'))
     full = op_universe(True)
     for i in range(600 if tier == 'quick' else 20000):
         n = rng.randrange(3, 9)
@@ -206,7 +217,9 @@ def run(res, tier, seed):
     for c, a, b in zip(cmds, obs, mod):
         res.compare(c, a, b, 'cmd_registry_history')
     res.exhaustive = False
-    res.notes.append(f'all {len(uni)}^{depth} x 2 (warnings off / as errors) histories of length {depth} were enumerated; longer histories are sampled')
+    res.notes.append(f'all {len(uni)}^{depth} x 2 (warnings off / as errors) histories of length {depth} were enumerated'
+                     + (f', and all {len(small)}^3 x 2 of length 3 over the reduced universe' if tier != 'quick' else '')
+                     + '; longer histories are sampled')
     for c in cmds[:1] + cmds[-2:]:
         res.sample(sx.dump(c)[:400])
 
